@@ -49,6 +49,8 @@ pub struct FileSpec {
     pub(crate) basename: String,
     pub(crate) o_discriminant: Option<String>,
     timestamp_cfg: TimestampCfg,
+    // the timestamp in the file name is the start time: determined once, at its first use
+    start_time: std::sync::OnceLock<String>,
     o_suffix: Option<String>,
     pub(crate) use_utc: bool,
 }
@@ -62,6 +64,7 @@ impl Default for FileSpec {
             basename: Self::default_basename(),
             o_discriminant: None,
             timestamp_cfg: TimestampCfg::Default,
+            start_time: std::sync::OnceLock::new(),
             o_suffix: Some(String::from("log")),
             use_utc: false,
         }
@@ -110,6 +113,7 @@ impl FileSpec {
                 o_discriminant: None,
                 o_suffix: p.extension().map(|s| s.to_string_lossy().to_string()),
                 timestamp_cfg: TimestampCfg::No,
+                start_time: std::sync::OnceLock::new(),
                 use_utc: false,
             })
         }
@@ -257,9 +261,10 @@ impl FileSpec {
                 fixed_name_part.push_str(discriminant);
             }
         }
-        if let Some(timestamp) = &self.timestamp_cfg.get_timestamp() {
+        if let Some(timestamp) = self.timestamp_cfg.get_timestamp() {
             append_underscore_if_not_empty(&mut fixed_name_part);
-            fixed_name_part.push_str(timestamp);
+            // all files of a logger carry the same start time
+            fixed_name_part.push_str(self.start_time.get_or_init(|| timestamp));
         }
         fixed_name_part
     }
